@@ -131,6 +131,12 @@ def worker(ctx, shard):
     p.wrap(S.LinearScale, "ticks", counter("LinearScale.ticks"))
     p.wrap(S.LinearScale, "tickFormat", counter("LinearScale.tickFormat"))
     rng = ctx.rng("ticks%d" % shard["sub"])
+    if shard["sub"] % 4 == 3:
+        import decimal
+
+        decimal.getcontext().prec = 5
+        decimal.getcontext().rounding = decimal.ROUND_DOWN
+        ctx.path("process-with-lowered-decimal-precision")
     for _ in range(shard["n"]):
         a, b, m, tag = lin.gen_domain(rng)
         run_case(ctx, S, a, b, m, tag, reuse=rng.choice([None, None, None, "same-object", "copy", "ticks-then-nice", "ticks-then-nice-other-count", "copy-sibling-asked-first", "format-for-other-count-first", "ticks-held-across-nice", "float-count", "formatter-held-across-other-formats"]))
